@@ -622,6 +622,11 @@ func errClass(err error) string {
 }
 
 func dataID(i int) message.DataID {
+	if s := curSim; s != nil && s.RaceMode && s.T != nil {
+		// under the race detector every run uses data ids of its own, so that process-wide tables
+		// keyed by content are written to in every run, not only in the first one of the process
+		return message.DataID{Name: fmt.Sprintf("d%d-r%d", i, s.T.Seed), Type: "ty"}
+	}
 	return message.DataID{Name: fmt.Sprintf("d%d", i), Type: "ty"}
 }
 
